@@ -482,6 +482,7 @@ func (s *solver) check(extra *Term, vars []*Term, wantModel bool) (satResult, *m
 // getModel reads the values of the given bit-vector/Bool variables.
 func (s *solver) getModel(vars []*Term) *model {
 	m := newModel()
+	m.home = s
 	var bv []*Term
 	for _, v := range vars {
 		if v.w != wStr {
